@@ -184,6 +184,14 @@ Section Server.
     | _ => None
     end.
 
+  (* proxy_websocket: what is written to the `websocket` target before the raw tunnel starts — the upgrade request as it
+     is re-serialised (From<Request> for Vec<u8>), no prefix strip, no added header *)
+  Definition ws_forwarded_bytes (c : config) (p : peer) (req : request) : option bytes :=
+    match server_response c p req with
+    | SWsProxy _ => Some (serialize_request req)
+    | _ => None
+    end.
+
   (* from the configuration text: what the server started with this file answers (None: the file does not load) *)
   Definition serve_text (files : bytes -> fentry) (file conf : bytes) (p : peer) (req : request) : option sresp :=
     match load ipp files file conf with
@@ -193,6 +201,11 @@ Section Server.
   Definition forwarded_text (files : bytes -> fentry) (file conf : bytes) (p : peer) (req : request) : option bytes :=
     match load ipp files file conf with
     | ROk c => forwarded_bytes c p req
+    | _ => None
+    end.
+  Definition ws_forwarded_text (files : bytes -> fentry) (file conf : bytes) (p : peer) (req : request) : option bytes :=
+    match load ipp files file conf with
+    | ROk c => ws_forwarded_bytes c p req
     | _ => None
     end.
 End Server.
